@@ -320,8 +320,8 @@ if __name__ == "__main__":
     try:
         main()
     except Shape as e:            # fail closed, with one clean line for the obligation's detail
-        sys.stdout.write("Unsupported: %s\n" % e)
+        sys.stderr.write("Unsupported: %s\n" % e)
         sys.exit(2)
     except Exception as e:         # anything unforeseen is also a refusal, never a silent pass
-        sys.stdout.write("Unsupported: %s: %s\n" % (type(e).__name__, e))
+        sys.stderr.write("Unsupported: %s: %s\n" % (type(e).__name__, e))
         sys.exit(2)
